@@ -23,14 +23,19 @@ theorem messages_ids (c : Cfg) : (messages c).map (·.1) = ids (contents c).leng
   rw [List.map_fst_zip]
   simp [ids]
 
-/-- **Message ids are unique — as long as the counter does not wrap.** With the
-    counter as written (`u8`) that is: at most 256 messages. -/
-theorem C20_ids_unique_partial (c : Cfg) (h : (contents c).length ≤ counterMod) :
+/-- the counter is at least 64 bits wide (the width is extracted from the source:
+    `let mut count = 0usize;` since the repair 0ff9883 of finding F19) -/
+theorem counter_wide : 2 ^ 64 ≤ counterMod := by decide
+
+/-- **Message ids are unique** for every list shorter than the range of the
+    counter — with the counter in the source that is 2^64 messages, more than a
+    process can hold. -/
+theorem C20_ids_unique (c : Cfg) (h : (contents c).length ≤ 2 ^ 64) :
     ((messages c).map (·.1)).Nodup := by
-  rw [messages_ids, ids_eq_range _ h]
+  rw [messages_ids, ids_eq_range _ (Nat.le_trans h counter_wide)]
   exact List.nodup_range
 
-example : ∃ c : Cfg, (contents c).length = 5 ∧ (contents c).length ≤ counterMod :=
+example : ∃ c : Cfg, (contents c).length = 5 ∧ (contents c).length ≤ 2 ^ 64 :=
   ⟨{ tcp := [{ proto := .tcp, addr := 1 }],
      clusters := [{ id := 2, tcp := true, fronts := [{ addr := 1, key := 3 }], backends := [{ addr := 4 }] }] },
    by decide⟩
@@ -41,13 +46,13 @@ def f19Witness : Decl :=
   { clusters := [{ id := 1, tcp := true, fronts := [{ addr := 2, key := 3 }],
                    backends := (List.range 253).map fun i => { addr := 10 + i } }] }
 
-/-- **The excluded point (F19).** A file the loader accepts whose message list
-    has 257 entries: `CONFIG-0` is used twice. (With overflow checks the real
-    code panics at `count += 1` instead.) A repair that widens the counter makes
-    this theorem fail to compile — the signal to drop the hypothesis above. -/
-theorem C20_ids_unique_counterexample :
-    ∃ c, build f19Witness = .ok c ∧ (contents c).length = 257 ∧ ¬ ((messages c).map (·.1)).Nodup := by
-  refine ⟨_, rfl, ?_, ?_⟩ <;> decide +kernel
+/-- regression of finding F19: this accepted file has 257 messages; with the
+    8-bit counter the code had, `CONFIG-0` was used twice (a build with overflow
+    checks panicked instead); with the counter it has now the ids are distinct -/
+theorem C20_f19_regression :
+    ∃ c, build f19Witness = .ok c ∧ (contents c).length = 257 ∧
+      ¬ ((List.range 257).map (· % 2 ^ 8)).Nodup ∧ ((messages c).map (·.1)).Nodup := by
+  refine ⟨_, rfl, ?_, ?_, ?_⟩ <;> decide +kernel
 
 /-! ### one Add per declared object, nothing else -/
 
@@ -572,16 +577,19 @@ theorem C20_accepted_in_full_counterexample_duplicate_frontend :
     ∃ c, build dupFrontWitness = .ok c ∧ rejected {} (contents c) = [.addFront false 2 7] := by
   exact ⟨_, rfl, by decide⟩
 
-/-- a `[clusters.x.health_check]` block the state refuses: the loader accepts
-    the file, `AddCluster` is refused, the cluster's frontends and backends are
-    added to a cluster that does not exist -/
+/-- a `[clusters.x.health_check]` block the state refuses -/
 def badHcWitness : Decl :=
   { clusters := [{ id := 1, tcp := false, hcBad := true, fronts := [{ addr := 5, key := 7 }], backends := [{ addr := 9 }] }] }
 
-theorem C20_accepted_in_full_counterexample_health_check :
-    ∃ c, build badHcWitness = .ok c ∧ rejected {} (contents c) = [.addCluster 1 true] ∧
-      (runMsgs {} (contents c)).clusters = [] ∧ (runMsgs {} (contents c)).fronts ≠ [] := by
-  exact ⟨_, rfl, by decide⟩
+/-- regression of finding F31 (repaired by d349d36): such a file is rejected at
+    load time. Before, it loaded, `AddCluster` was refused by the state and the
+    cluster's frontends and backends were added to a cluster that did not exist:
+    that is what `dispatch` does with the list the old loader produced. -/
+theorem C20_f31_regression :
+    build badHcWitness = .error .invalidHealthCheck ∧
+    rejected {} (clusterMsgs { id := 1, tcp := false, hcBad := true, fronts := [{ addr := 5, key := 7 }], backends := [{ addr := 9 }] })
+      = [.addCluster 1 true] :=
+  ⟨rfl, by decide⟩
 
 /-- two backends of one cluster with the same `backend_id` and address: both
     messages are accepted, one backend is loaded -/
@@ -774,9 +782,9 @@ theorem accepted_all : ∀ (ms seen : List Msg) (s : St),
 
 /-- **A fresh instance accepts the whole list** — provided no two messages carry
     the same listener key, route key or tcp frontend, and no cluster carries a
-    health check the state refuses. The loader establishes the first (listener
-    addresses are unique) but none of the others: see the two
-    `C20_accepted_in_full_counterexample_*` theorems. -/
+    health check the state refuses. The loader establishes the last (see
+    `C20_build_no_bad_cluster`) and unique listener addresses, but not unique
+    route keys: see `C20_accepted_in_full_counterexample_duplicate_frontend`. -/
 theorem C20_accepted_in_full_partial (c : Cfg)
     (hkeys : ((contents c).filterMap rejKey).Nodup)
     (hhc : ∀ m ∈ contents c, isBadCluster m = false) :
@@ -786,5 +794,99 @@ theorem C20_accepted_in_full_partial (c : Cfg)
 
 example : ((contents sampleCfg).filterMap rejKey).Nodup ∧ ∀ m ∈ contents sampleCfg, isBadCluster m = false := by
   decide
+
+/-! ### what the loader establishes -/
+
+theorem push_clusters (c : Cfg) (l : Listener) : (c.push l).clusters = c.clusters := by
+  unfold Cfg.push; split <;> rfl
+
+theorem httpFronts_clusters (c : Cfg) (acc fs : List Front) (c' : Cfg) (fs' : List Front)
+    (h : httpFronts c acc fs = .ok (c', fs')) : c'.clusters = c.clusters := by
+  fun_induction httpFronts c acc fs <;> simp_all [push_clusters]
+
+theorem tcpFronts_clusters (c : Cfg) (acc fs : List Front) (c' : Cfg) (fs' : List Front)
+    (h : tcpFronts c acc fs = .ok (c', fs')) : c'.clusters = c.clusters := by
+  fun_induction tcpFronts c acc fs <;> simp_all [push_clusters]
+
+theorem addListeners_clusters (c : Cfg) (ls : List Listener) (c' : Cfg)
+    (h : addListeners c ls = .ok c') : c'.clusters = c.clusters := by
+  fun_induction addListeners c ls <;> simp_all [push_clusters]
+
+theorem addClusters_noBad (c : Cfg) (ks : List Cluster) (c' : Cfg)
+    (h : addClusters c ks = .ok c') (h0 : ∀ k ∈ c.clusters, k.hcBad = false) :
+    ∀ k ∈ c'.clusters, k.hcBad = false := by
+  induction ks generalizing c with
+  | nil => simp [addClusters] at h; subst h; exact h0
+  | cons k ks ih =>
+    simp only [addClusters] at h
+    split at h
+    · cases h
+    · next hb =>
+      split at h
+      · split at h
+        · cases h
+        · split at h
+          · cases h
+          · next c1 fs heq =>
+            apply ih _ h
+            intro x hx
+            simp only [List.mem_append, List.mem_singleton] at hx
+            rcases hx with hx | rfl
+            · rw [tcpFronts_clusters _ _ _ _ _ heq] at hx; exact h0 x hx
+            · simpa using hb
+      · split at h
+        · cases h
+        · next c1 fs heq =>
+          apply ih _ h
+          intro x hx
+          simp only [List.mem_append, List.mem_singleton] at hx
+          rcases hx with hx | rfl
+          · rw [httpFronts_clusters _ _ _ _ _ heq] at hx; exact h0 x hx
+          · simpa using hb
+
+/-- **The loader refuses health checks the state would refuse**: no `AddCluster`
+    of an accepted file carries one. -/
+theorem C20_build_no_bad_cluster (d : Decl) (c : Cfg) (h : build d = .ok c) :
+    ∀ m ∈ contents c, isBadCluster m = false := by
+  have hk : ∀ k ∈ c.clusters, k.hcBad = false := by
+    unfold build at h
+    split at h
+    · cases h
+    · next c0 h0 =>
+      split at h
+      · cases h
+      · next c1 h1 =>
+        split at h
+        · cases h
+        · cases h
+          apply addClusters_noBad _ _ _ h1
+          rw [addListeners_clusters _ _ _ h0]
+          intro k hk; cases hk
+  intro m hm
+  cases m with
+  | addCluster id bad =>
+    simp only [isBadCluster]
+    simp only [contents, List.mem_append, List.mem_flatMap] at hm
+    rcases hm with ((hm | ⟨k, hkm, hm⟩) | hm) | hm
+    · simp [listenerMsgs] at hm
+    · simp only [clusterMsgs, List.mem_cons, List.mem_append, List.mem_flatMap] at hm
+      rcases hm with hm | ⟨f, _, hm⟩ | hm
+      · cases hm; exact hk k hkm
+      · exfalso; unfold frontMsgs at hm; split at hm <;> (try split at hm) <;> simp at hm
+      · exfalso
+        have : ∀ (i : Nat) (bs : List Backend), Msg.addCluster id bad ∉ backendMsgs k i bs := by
+          intro i bs
+          induction bs generalizing i with
+          | nil => simp [backendMsgs]
+          | cons b bs ih => simp [backendMsgs, ih]
+        exact this _ _ hm
+    · split at hm <;> simp [activateMsgs] at hm
+    · split at hm <;> simp at hm
+  | _ => rfl
+
+/-- acceptance in full for an accepted file: only the route-key hypothesis is left -/
+theorem C20_accepted_in_full_of_build (d : Decl) (c : Cfg) (h : build d = .ok c)
+    (hkeys : ((contents c).filterMap rejKey).Nodup) : rejected {} (contents c) = [] :=
+  C20_accepted_in_full_partial c hkeys (C20_build_no_bad_cluster d c h)
 
 end Sozu.Config
